@@ -79,6 +79,12 @@ def _small_universe(ch: core.Chooser, names: List[str]) -> dict:
     return {"names": names, "shape": [], "dtype": "int64", "exponents": uniq, "coefficients": coeffs, "retain": True}
 
 
+def _other(ch: core.Chooser) -> dict:
+    if not ch.chance(0.3):
+        return {}
+    return {"retain_names": ch.chance(0.3), "retain_coefficients": ch.chance(0.5)}
+
+
 def _reach(ch: core.Chooser) -> str:
     return ch.weighted([(5, "direct"), (2, "nested"), (2, "set_inside")])
 
@@ -95,7 +101,7 @@ def generate(rs: int, tier: str, index: int) -> dict:
         else:
             base = gen_poly(ch.sub("a"), names=names, shape=(), same_degree=ch.between(3, 6), kind="int")
             polys = [base, _near(ch.sub("b"), base), _near(ch.sub("c"), base)]
-        steps.append({"id": 0, "k": "triple", "polys": polys, "reach": _reach(ch.sub("r"))})
+        steps.append({"id": 0, "k": "triple", "polys": polys, "reach": _reach(ch.sub("r")), "other_options": _other(ch.sub("oo"))})
     else:
         kindc = ch.weighted([(5, "int"), (3, "float"), (1, "complex")])
         shape = ch.choice([(), (), (2,), (3,), (2, 2), (1, 3), (2, 1, 2)])
@@ -139,7 +145,7 @@ def generate(rs: int, tier: str, index: int) -> dict:
                 lit["dtype"] = "float32"
                 lit["coefficients"] = [[float(numpy.float32(v)) for v in col] for col in lit["coefficients"]]
         steps.append({"id": 0, "k": "pair", "a": {"poly": a}, "b": b, "swap": swap, "complex": kindc == "complex",
-                      "extra_op": ch.below(6), "reach": _reach(ch.sub("r"))})
+                      "extra_op": ch.below(6), "reach": _reach(ch.sub("r")), "other_options": _other(ch.sub("oo"))})
     pols = ALL_POLICIES if tier == "thorough" else ["stable", ch.choice(ALL_POLICIES[1:])]
     return {"property": ID, "run_seed": rs, "tier": tier, "prelude": prelude.gen_prelude(core.Chooser(rs, "prelude")), "policies": pols, "steps": steps}
 
@@ -174,8 +180,9 @@ def as_elements(value: Any, names: Tuple[str, ...], shape: tuple) -> List[Dict[t
 class reach_options:
     """Enter the sort setting through one of several option histories."""
 
-    def __init__(self, how: str, graded: bool, reverse: bool):
+    def __init__(self, how: str, graded: bool, reverse: bool, other: Optional[dict] = None):
         self.how, self.g, self.r = how, graded, reverse
+        self.other = other or {}
         self.stack: List[Any] = []
 
     def __enter__(self) -> None:
@@ -188,6 +195,8 @@ class reach_options:
                    numpoly.global_options(sort_graded=self.g), numpoly.global_options(sort_reverse=self.r)]
         else:
             cms = [numpoly.global_options(sort_graded=not self.g)]
+        if self.other:  # the order says nothing about the retain options: it must hold whatever they are
+            cms.append(numpoly.global_options(**self.other))
         for cm in cms:
             cm.__enter__()
             self.stack.append(cm)
@@ -247,7 +256,7 @@ class Runner:
             want = numpy.array([0 if is_complex else model.compare_elements(x, y, g, r) for x, y in zip(el_l, el_r)], dtype=int).reshape(shape)
             eq_want = numpy.array([self._el_equal(x, y) for x, y in zip(el_l, el_r)], dtype=bool).reshape(shape)
             where = {"graded": g, "reverse": r, "policy": pol}
-            with seams.Env(core.H(self.rs, pol, g, r), sort=pol) as env, reach_options(step.get("reach", "direct"), g, r):
+            with seams.Env(core.H(self.rs, pol, g, r), sort=pol) as env, reach_options(step.get("reach", "direct"), g, r, step.get("other_options")):
                 env.begin_step(sid)
                 got: Dict[str, Any] = {}
                 for name, opf, fname in OPS:
@@ -361,7 +370,7 @@ class Runner:
         sid = step["id"]
         out = []
         for g, r, pol in self.settings():
-            with seams.Env(core.H(self.rs, pol, g, r), sort=pol) as env, reach_options(step.get("reach", "direct"), g, r):
+            with seams.Env(core.H(self.rs, pol, g, r), sort=pol) as env, reach_options(step.get("reach", "direct"), g, r, step.get("other_options")):
                 env.begin_step(sid)
                 lt = [[None] * 3 for _ in range(3)]
                 try:
@@ -425,6 +434,8 @@ def simplify(plan: dict):
         for pol in plan["policies"]:
             yield dict(plan, policies=[pol])
     for i, step in enumerate(plan["steps"]):
+        if step.get("other_options"):
+            yield dict(plan, steps=[dict(step, other_options={})])
         if step.get("reach") != "direct":
             yield dict(plan, steps=[dict(step, reach="direct")])
         if step["k"] == "pair":
